@@ -89,6 +89,39 @@ def cells():
                 out.append(("reserved-keyword/%s/%s/%s" % (name, kind, dname), ("call", "TypeError"), stages))
                 stages = [("definition", lambda _, mk=mk: mk()), ("call", lambda f, k=kind: call(f, k, 1, other=2))]
                 out.append(("twin:reserved-keyword/%s/%s/%s" % (name, kind, dname), (None, None), stages))
+    # 2b. the reserved keyword in a RE-ENTRANT call (made by the function's own condition while it is being checked)
+    for name in ("_ARGS", "_KWARGS"):
+        for kind in ("function", "async"):
+            for dname in ("require", "ensure"):
+                def mk_re(dname=dname, kind=kind, kw_name=name):
+                    box = []
+
+                    def cond(x):
+                        if x == 1:
+                            r = box[0](0, **{kw_name: 2})
+                            if kind == "async":
+                                drive(r)
+                        return True
+
+                    box.append(getattr(icontract, dname)(cond)(define("x, **kwargs", kind)))
+                    return box[0]
+                out.append(("reserved-keyword-reentrant/%s/%s/%s" % (name, kind, dname), ("call", "TypeError"),
+                            [("definition", lambda _, mk=mk_re: mk()), ("call", lambda f, k=kind: call(f, k, 1))]))
+
+                def mk_re_ok(dname=dname, kind=kind):
+                    box = []
+
+                    def cond(x):
+                        if x == 1:
+                            r = box[0](0, other=2)
+                            if kind == "async":
+                                drive(r)
+                        return True
+
+                    box.append(getattr(icontract, dname)(cond)(define("x, **kwargs", kind)))
+                    return box[0]
+                out.append(("twin:reserved-keyword-reentrant/%s/%s/%s" % (name, kind, dname), (None, None),
+                            [("definition", lambda _, mk=mk_re_ok: mk()), ("call", lambda f, k=kind: call(f, k, 1))]))
     # 3. result / OLD with postconditions
     for name in ("result", "OLD"):
         for kind in FUNC_KINDS:
